@@ -615,12 +615,13 @@ class LoaderBase(ABC):
             **align_kwargs,
         )
 
-        if model.is_multi_templates:
-            task_shape = (model.niter,) + tuple(
-                2 * np.ceil(_max_shifts_px).astype(np.int32) + 1
-            )
-        else:
-            task_shape = tuple(2 * np.ceil(_max_shifts_px).astype(np.int32) + 1)
+        # The landscape shape depends on the alignment model, the search range and the
+        # up-sampling factor but not on the image content.
+        task_shape = model.landscape(
+            np.zeros(model.input_shape, dtype=np.float32),
+            _max_shifts_px,
+            upsample=upsample,
+        ).shape
         task_arrays = (
             self.replace(output_shape=model.input_shape)
             .iter_mapping_tasks(
